@@ -95,6 +95,7 @@ func H_C13_noretro_redelegate() {
 	}
 	st := Build(ps, Opts{Rewards: true})
 	e := st.E
+	hintUnitPrices(st)
 	amt := nd.IntRange("amt", "1", Pow30)
 	var err error
 	if Caught(func() {
